@@ -62,6 +62,12 @@ def render_all(sb, configs, fn):
         sb.set_tools(c.get('has_git', True), c.get('has_diff', True))
         buf = io.StringIO()
         rec = {}
+        gcfg = None
+        if c.get('git_color_always'):
+            # a user-level git configuration that forces colour (color.ui = always)
+            gcfg = tempfile.NamedTemporaryFile('w', suffix='.gitconfig', delete=False)
+            gcfg.write('[color]\n\tui = always\n'); gcfg.close()
+            os.environ['GIT_CONFIG_GLOBAL'] = gcfg.name
         try:
             cfg = PrettyPrintConfig(out=buf, include=Include(c['ignore']), color_words=c['color_words'],
                                     use_git=c['use_git'], use_diff=c['use_diff'], use_color=c['use_color'])
@@ -73,6 +79,8 @@ def render_all(sb, configs, fn):
             tb = traceback.extract_tb(e.__traceback__)
             where = ['%s:%s' % (os.path.basename(f.filename), f.name) for f in tb if 'nbdime' in f.filename][-3:]
             rec.update(err=type(e).__name__, msg=str(e)[:300], where=where, partial=buf.getvalue()[-300:])
+        if gcfg is not None:
+            os.environ.pop('GIT_CONFIG_GLOBAL', None); os.unlink(gcfg.name)
         rec['tools'] = sb.take_log()
         recs.append(rec)
     os.environ['PATH'] = sb.orig_path
@@ -109,7 +117,7 @@ def do_task(sb, t):
         args = None
         if t.get('strategy'):
             args = Args(); args.merge_strategy = t['strategy']; args.ignore_transients = t.get('ignore_transients', True)
-            args.input_strategy = None; args.output_strategy = None
+            args.input_strategy = None; args.output_strategy = None; args.log_level = 'INFO'
         try:
             decisions = decide_notebook_merge(base, local, remote, args)
         except Exception as e:
